@@ -240,9 +240,47 @@ pub fn run_inputs(w: &mut W) {
     }
 }
 
+/// C01 also runs the adversarial scaling families (up to 1 MiB in the thorough tier): large
+/// inputs against the guard pages, with fuel armed.
+fn run_c01_large(w: &mut W) {
+    let sizes: Vec<usize> = match w.tier {
+        Tier::Tiny => return,
+        Tier::Small => vec![1 << 12],
+        Tier::Quick => vec![1 << 12, (1 << 16) + 17],
+        Tier::Thorough => vec![1 << 12, (1 << 16) + 17, 1 << 18, 1 << 20],
+    };
+    let mut idx = 0u64;
+    for fam in 0..gen::G7_FAMILIES {
+        for &sz in &sizes {
+            for bk in 0..3usize {
+                idx += 1;
+                if idx % w.nshards != w.shard {
+                    continue;
+                }
+                let s = gen::g7(fam, sz);
+                let backend = if w.can_force { BACKENDS3[bk] } else { crate::types::Backend::AsIs };
+                w.st.distinct_case(hash_bytes(7, &s.buf) ^ bk as u64);
+                w.st.count("large_family_inputs", 1);
+                w.st.max("largest_input_bytes", s.buf.len() as f64);
+                let call = crate::obs::Call { entry: s.entry, cfg: s.cfg, cap: s.cap.min(60000), hplace: crate::arena::Place::End, backend };
+                crate::units::unit_call(w, call, &s.buf, crate::arena::Place::End);
+                let cut = s.buf.len() - s.buf.len() / 3;
+                crate::units::unit_call(w, call, &s.buf[..cut], crate::arena::Place::End);
+                if !w.can_force {
+                    break;
+                }
+            }
+        }
+    }
+}
+
 pub fn run_property(w: &mut W) {
     match w.prop.as_str() {
         "C12" | "C13" | "C18" | "C20" => crate::special::run(w),
+        "C01" => {
+            run_inputs(w);
+            run_c01_large(w);
+        }
         _ => run_inputs(w),
     }
 }
